@@ -258,6 +258,11 @@ def check_post_selection_functions(idx: Index, rep: Report, rule: str):
         ok = _eq(f1, {"abc": c1, "abX": c2, "pqc": c3}) and _eq(f2, {"de": tot})
         rep.decide(ok, rule, sl, sl.node, text="last-2 split: heads keep their counts, equal tails accumulate", what="splitting off the last n characters conserves the total on both sides",
                    reason=f"got {f1} / {f2}")
+        fo2 = cs.make_folder(idx, POST)
+        f1, f2 = fo2.run_function(sl.node, {"frequencies": {"abcde": c1, "abcXY": c2, "pqcde": c3}, "n": 2})
+        ok = _eq(f1, {"abc": c1 + c2, "pqc": c3}) and _eq(f2, {"de": c1 + c3, "XY": c2})
+        rep.decide(ok, rule, sl, sl.node, text="last-2 split: equal heads accumulate too", what="records that differ only in the last n characters add up on the head side",
+                   reason=f"got {f1} / {f2}")
         pf = idx.function(f"{POST}::post_select")
         fo2 = cs.make_folder(idx, POST)
         r = fo2.run_function(pf.node, {"freqs": dict(base), "expected_outcomes": {4: "e"}})
